@@ -92,6 +92,13 @@ def same(a, b):
     return bool(np.allclose(x, y, rtol=0, atol=TOL * max(1.0, float(np.max(np.abs(y))) if y.size else 1.0)))
 
 
+def srepr(r):
+    try:
+        return repr(r)[:300]
+    except Exception:  # noqa: BLE001  (some __repr__ fail on multi-valued objects)
+        return "<%s, %s values>" % (type(r).__name__, len(getattr(r, "data", [])))
+
+
 def single(fn):
     try:
         return True, fn()
@@ -104,6 +111,9 @@ OPT_KW = {"": {}, "deg": {"unit": "deg"}, "xyz": {"order": "xyz"}, "yxz": {"orde
 
 
 def call_unary(x, f, opt=""):
+    if f.startswith("->"):
+        import c04
+        return c04.convert(type(x).__name__, f[2:], x, False)
     a = getattr(x, f)
     return a(**OPT_KW[opt]) if callable(a) else a
 
@@ -166,7 +176,7 @@ def run_case(j, e):
     if doc["k"] == "raise":
         ok, r = single(full)
         if ok:
-            j.fail("%s|%s|%s|no-exception" % (PID, site, feat), dict(detail, got=repr(r)[:200]), cid)
+            j.fail("%s|%s|%s|no-exception" % (PID, site, feat), dict(detail, got=srepr(r)), cid)
         elif r != "ValueError":
             j.fail("%s|%s|%s|raised-%s-instead-of-ValueError" % (PID, site, feat, r), detail, cid)
         else:
@@ -187,12 +197,12 @@ def run_case(j, e):
     got = items(r, out["len"], exp)
     if got is None:
         j.fail("%s|%s|%s|wrong-length" % (PID, site, feat),
-               dict(detail, got=repr(r)[:300]), cid)
+               dict(detail, got=srepr(r)), cid)
         return
     bad = [i + 1 for i, (g, x_) in enumerate(zip(got, exp)) if not same(g, x_)]
     if bad:
         j.fail("%s|%s|%s|wrong-element" % (PID, site, feat),
-               dict(detail, wrong_positions=bad, got=repr(r)[:300]), cid)
+               dict(detail, wrong_positions=bad, got=srepr(r)), cid)
     else:
         j.ok(cid, nontrivial=(m > 1 or n > 1))
         if len(j.samples) < 4 and m > 1 and n > 1:
